@@ -19,6 +19,15 @@ for pid in sorted(os.listdir(src)):
         except Exception:
             print('no evaluation for', pid, k)
             continue
+        # the last checks-only pass on the final checkers (tools/benigneval.py --checks-only) supersedes the verdicts
+        p2 = os.path.join(d, 'eval2.txt')
+        if os.path.exists(p2):
+            t2 = open(p2).read()
+            try:
+                ev2 = json.loads(t2[t2.index('{'):])
+                ev['false_alarms'], ev['failed_closed'] = ev2.get('false_alarms'), ev2.get('failed_closed')
+            except Exception:
+                pass
         dst = os.path.join(V, 'benign', '%s-%s' % (pid, k))
         os.makedirs(dst, exist_ok=True)
         for f in ('patch.diff', 'equiv.py'):
